@@ -205,6 +205,8 @@ where
 
         if (device_event as usize) < self.vrings.len() {
             let vring = &self.vrings[device_event as usize];
+            #[cfg(vhost_verif)]
+            vhost::vhost_user::verif_hooks::hold::reach("worker:after_epoll");
             let enabled = vring
                 .read_kick()
                 .map_err(VringEpollError::HandleEventReadKick)?;
@@ -213,6 +215,8 @@ where
             if !enabled {
                 return Ok(false);
             }
+            #[cfg(vhost_verif)]
+            vhost::vhost_user::verif_hooks::hold::reach("worker:after_read");
         }
 
         self.backend
